@@ -447,7 +447,8 @@ let oracle (prop : string) (p : parsed) (observed : S.t) : string =
     (match List.find_opt (fun v -> v <> "holds") verdicts with
      | Some v -> v
      | None ->
-       if prop = "C11" && printed = "rewritten" then "fails:request-text-rewritten-by-resolving-(text-the-request-did-not-hold)"
+       if prop = "C11" && printed = "unstable" then "fails:printing-the-request-changed-it-(two-prints-in-a-row-differ)"
+       else if prop = "C11" && printed = "rewritten" then "fails:request-text-rewritten-by-resolving-(text-the-request-did-not-hold)"
        else if prop = "C11" && printed <> "same" then "fails:printed-form-of-the-executable-changed" else "holds")
   | S.L (S.A "panic" :: _) -> "fails:panic"
   | _ -> "fails:malformed-observation"
